@@ -259,7 +259,10 @@ def numeric(ctx, quick):
             opp = 'first' if to == 'last' else 'last'
             for normalize in (False, True):
                 psi = psi0.copy()
-                psi.canonize_(to=opp, normalize=False)
+                prep = rng.choice(['opposite', 'opposite', 'as-is', 'same-direction'])     # a non-binding sweep is harmless in any gauge
+                if prep != 'as-is':
+                    psi.canonize_(to=opp if prep == 'opposite' else to, normalize=False)
+                ctx.count('truncate:nonbinding:prepared-' + prep)
                 disc = psi.truncate_(to=to, opts_svd={'tol': 1e-14}, normalize=normalize)
                 v = mgen.dense_state(psi, ops).reshape(-1)
                 ctx.count('truncate:nonbinding')
